@@ -58,9 +58,29 @@ P_C03(pre, e) ==
     /\ Ck("C03", "InFlightStatusWhileOutstanding", InFlightWrong(post) = {}, InFlightWrong(post))
     /\ (e.ev \in {"resp", "nobuild"} => Ck("C03", "NoEscapingException", e.a.err = "", e.a.err))
 
+\* C15 on the BETDAQ path: the live list holds every order that is not complete, loses an order only once it is
+\* complete, and every placed order is in the blotter of its market (the very object: recorded as `inbl`)
+P_C15(pre, e) ==
+    LET post == e.st IN
+    /\ Ck("C15", "LiveListComplete",
+          \A o \in DOMAIN post.ord : (post.ord[o].status \in {"PENDING", "EXECUTABLE", "CANCELLING", "UPDATING"}) => post.ord[o].live,
+          {o \in DOMAIN post.ord : post.ord[o].status \in {"PENDING", "EXECUTABLE", "CANCELLING", "UPDATING"} /\ ~post.ord[o].live})
+    /\ Ck("C15", "RemovedOnlyAfterComplete",
+          \A o \in DOMAIN pre.ord \cap DOMAIN post.ord : (pre.ord[o].live /\ ~post.ord[o].live) => post.ord[o].status \in {"COMPLETE", "VIOLATION"},
+          {o \in DOMAIN pre.ord \cap DOMAIN post.ord : pre.ord[o].live /\ ~post.ord[o].live /\ post.ord[o].status \notin {"COMPLETE", "VIOLATION"}})
+    /\ Ck("C15", "LiveInBlotter", \A o \in DOMAIN post.ord : post.ord[o].live => post.ord[o].inbl, {o \in DOMAIN post.ord : post.ord[o].live /\ ~post.ord[o].inbl})
+    /\ Ck("C15", "PlacedStaysInBlotter", \A o \in DOMAIN pre.ord \cap DOMAIN post.ord : pre.ord[o].inbl => post.ord[o].inbl,
+          {o \in DOMAIN pre.ord \cap DOMAIN post.ord : pre.ord[o].inbl /\ ~post.ord[o].inbl})
+    \* a complete order leaves the live list when the main loop next processes a poll showing it
+    /\ (e.ev = "proc" => Ck("C15", "CompleteLeavesOnPoll",
+          \A i \in DOMAIN (IF pre.hq = <<>> THEN <<>> ELSE pre.hq[1]) :
+             LET o == pre.hq[1][i].o IN (Has(post.ord, o) /\ post.ord[o].status = "COMPLETE") => ~post.ord[o].live,
+          IF pre.hq = <<>> THEN <<>> ELSE pre.hq[1]))
+
 StepOK(pre, e) ==
     /\ ("R" \in Props => LayerR(pre, e))
     /\ ("C03" \in Props => P_C03(pre, e))
+    /\ ("C15" \in Props => P_C15(pre, e))
 
 Init == tid \in 1..Len(Traces) /\ l = 1
 Next == /\ l < NSteps(tid)
